@@ -47,6 +47,9 @@ CLAIMED = {
  "C16": ("E2 product (complete, finite)",
          "the complete operator x operand matrix over 13 representative values of the 8 kinds (15 binary operators + `..`, 13x13 operands, two spellings), 5 op-assign operators x 4 target forms x 13x13, 45 typed contexts x 13 values; every cell executed on the real interpreter and judged against the table written out from the property statement, cross-checked with the reference model",
          "exhaustive enumeration of a finite product space on the real interpreter against a reference table"),
+ "C17": ("E2 product through the plain CLI",
+         "38 failing expressions x 30 syntactic positions + 29 failing statements, each at call depth 0..5 through named / anonymous / method calls (4 rotations incl. multi-byte text before every call), two prints before the failure, three path spellings; 13 lexical / syntax errors x 3 prefixes; successful scripts; thorough: pairs of nested positions; every case is a real `seed <path>` process; oracle = stdout holds exactly the prints before the failure (reference), exit 103, first stderr line `<path as given>:L:C: [in '<function>': ]<message>` with L inside the script and a message free of internal identifiers / Rust debug syntax, `Stacktrace:` with one `<path>:L:C: in '<caller>'` line per active call from the reference call stack, ending at <root>; success is silent with exit 0",
+         "exhaustive enumeration of error kind x position x call depth on the real CLI against a format grammar and a reference call stack"),
  "C20": ("E1 breadth-first history exploration + E2 product",
          "all histories of <= 4 (quick) / <= 6 (thorough, wall-capped; 5 completes) operations from 41 operations on x, y and `_` (declare through :=, list pattern, object pattern, fn, for target, parameter; assign; op-assign; read; open / close block, if, loop, function; `_` as target in every entry point; print(_); duplicate names in patterns and parameter lists; collect targets), dead states not expanded; plus 9 non-bindable expression kinds x 9 binding positions; oracle = reference scoping: success / failure, position of the offending name, earlier declaration's position cited in the message",
          "explicit-state breadth-first exploration of operation histories on the real interpreter against a reference model"),
